@@ -811,6 +811,8 @@ class Node:
             )
 
         # Validate `before` first: we must not detach the node and fail then
+        if before is self:
+            raise ValueError(f"Cannot move {self} before itself")
         if isinstance(before, Node) and before._parent is not new_parent:
             raise ValueError(
                 f"`before=node` ({before._parent}) "
